@@ -179,6 +179,8 @@ FastRational divexact(FastRational const & n, FastRational const & d) {
         word den = d.num;
         word quo;
         if (den != 0){
+            if (num == WORD_MIN && den == -1) // The quotient 2^31 does not fit a word and the division would overflow
+                return FastRational(absVal(num));
             quo = num / den;
             return quo;
         }
